@@ -353,7 +353,7 @@ func ruleEncGate(c *Ctx, r *Rep) {
 }
 
 func init() {
-	register(&Rule{Name: "DER-RAW", Floor: 1, Run: ruleDerRaw, Fixture: "fixture.rawFromInput",
+	register(&Rule{Name: "DER-RAW", Floor: 0, Run: ruleDerRaw, Fixture: "fixture.rawFromInput",
 		Doc: "bytes that encoding/asn1 emits verbatim (RawValue.FullBytes, RawContent fields) are always the output of an encoder (asn1.Marshal / MarshalWithParams) or asn1.NullBytes, never bytes taken from input: everything else in a certificate is encoded from typed values, so the result is well-formed DER whatever the configuration says"})
 }
 
